@@ -1,4 +1,4 @@
-CONSTANT Families = {"smooth", "median", "runmed1", "runmed2", "runmed2pat", "uniq", "uniqidx", "rebin", "rebinbad", "rebinfloor"}
+CONSTANT Families = {"smooth", "median", "runmed1", "runmed2", "runmed2pat", "uniq", "uniqidx", "rebin", "rebinbad", "rebindelta", "rebinfloor"}
 CONSTANT MaxLen = 7
 CONSTANT Med2Shapes <- T_Med2Shapes
 CONSTANT MaxIdxLen = 5
@@ -6,6 +6,7 @@ CONSTANT Img2Shapes <- T_Img2Shapes
 CONSTANT PatShapes <- T_PatShapes
 CONSTANT RebinMaxRank = 3
 CONSTANT RebinDims3 = {1, 2, 3, 4, 6}
+CONSTANT DeltaMaxRank = 2
 CONSTANT FloorD0 = 4
 CONSTANT FloorFactors <- T_FloorFactors
 INIT Init
@@ -20,6 +21,8 @@ INVARIANT C14_SmoothEdgeFlagOnlyAtEdges
 INVARIANT C14_SmoothEvenIsNextOdd
 INVARIANT C14_SmoothWithinHull
 INVARIANT C14_SmoothInteriorIsWindowMean
+INVARIANT C14_SmoothLinear
+INVARIANT C14_SmoothSupport
 INVARIANT C14_MedianTwoPhrasings
 INVARIANT C14_MedianIsAnElement
 INVARIANT C14_MedianEvenFlag
@@ -47,4 +50,6 @@ INVARIANT C14_RebinSampleTakesElements
 INVARIANT C14_SamplingBackIsIdentity
 INVARIANT C14_BlockMeanPreservesMean
 INVARIANT C14_RebinAxesCommute
+INVARIANT C14_RebinLinear
+INVARIANT C14_RebinWeightsArePartition
 INVARIANT C14_RebinRejects
